@@ -138,6 +138,44 @@ func c09(repo string, out *fg.Out) error {
 	if !strings.Contains(dtxt, "DeleteBatch(ctx, j.compactedFiles)") || !strings.Contains(dtxt, "range j.compactedFiles") {
 		return fmt.Errorf("deleteOldFiles no longer deletes j.compactedFiles (batch and per-file paths)")
 	}
+	// uploadFile fails only with the error of the storage write itself (Run deletes the manifest on
+	// an upload failure "since the output doesn't exist")
+	_, upf := fg.FindFunc(files, "Job", "uploadFile")
+	if upf == nil {
+		return fmt.Errorf("(*Job).uploadFile not found")
+	}
+	wrs := callsIn(upf.Body, "WriteReader")
+	if len(wrs) != 1 {
+		return fmt.Errorf("uploadFile: expected exactly one WriteReader call, found %d", len(wrs))
+	}
+	uploadErrOnlyWrite := true
+	var wrIf *ast.IfStmt
+	ast.Inspect(upf.Body, func(n ast.Node) bool {
+		if s, ok := n.(*ast.IfStmt); ok && initCallName(s) == "WriteReader" {
+			wrIf = s
+		}
+		return true
+	})
+	ast.Inspect(upf.Body, func(n ast.Node) bool {
+		r, ok := n.(*ast.ReturnStmt)
+		if !ok || r.Pos() < wrs[0].Pos() && !(r.Pos() <= wrs[0].Pos() && wrs[0].End() <= r.End()) {
+			return true
+		}
+		if len(r.Results) != 1 {
+			uploadErrOnlyWrite = false
+			return true
+		}
+		res := r.Results[0]
+		switch {
+		case res == ast.Expr(wrs[0]): // return j.StorageBackend.WriteReader(...)
+		case jf.Text(res) == "nil":
+		case jf.Text(res) == "err" && wrIf != nil && r.Pos() >= wrIf.Body.Pos() && r.End() <= wrIf.Body.End():
+		default:
+			uploadErrOnlyWrite = false // e.g. `return ctx.Err()` after a write that succeeded
+		}
+		return true
+	})
+
 	// download skips files that no longer exist
 	_, dsf := fg.FindFunc(files, "Job", "downloadSingleFile")
 	if dsf == nil {
@@ -179,7 +217,7 @@ func c09(repo string, out *fg.Out) error {
 		}
 		return res, nil
 	}
-	var missingIf, mismatchIf, errorsIf, readErrIf *ast.IfStmt
+	var missingIf, mismatchIf, errorsIf, readErrIf, staleIf *ast.IfStmt
 	var inputsLoop *ast.RangeStmt
 	ast.Inspect(rec.Body, func(n ast.Node) bool {
 		switch s := n.(type) {
@@ -193,6 +231,9 @@ func c09(repo string, out *fg.Out) error {
 				mismatchIf = s
 			case "deleteErrors>0":
 				errorsIf = s
+			}
+			if ct := mf.Text(s.Cond); (strings.Contains(ct, "isStale") || strings.Contains(ct, "ManifestMaxAge")) && staleIf == nil {
+				staleIf = s
 			}
 		case *ast.RangeStmt:
 			if mf.Text(s.X) == "manifest.InputFiles" {
@@ -226,7 +267,7 @@ func c09(repo string, out *fg.Out) error {
 	for _, c := range callsIn(rec.Body, "Delete", "DeleteManifest", "DeleteBatch", "Write", "WriteReader") {
 		p := c.Pos()
 		inside := func(n ast.Node) bool { return p >= n.Pos() && p < n.End() }
-		if inside(missingIf) || inside(mismatchIf) || inside(readErrIf) {
+		if inside(missingIf) || inside(mismatchIf) || inside(readErrIf) || (staleIf != nil && inside(staleIf)) {
 			continue
 		}
 		if p < mismatchIf.End() {
@@ -245,6 +286,11 @@ func c09(repo string, out *fg.Out) error {
 		return fmt.Errorf("recoverManifest: checks are no longer in the order exists / size / delete inputs / error check")
 	}
 	keepOnErr := hasReturn(errorsIf.Body) && len(callsIn(errorsIf.Body, "DeleteManifest")) == 0
+	// the age check (ManifestMaxAge) only warns: no return, no storage mutation in its branch
+	if staleIf == nil {
+		return fmt.Errorf("recoverManifest: the ManifestMaxAge / isStale check was not found")
+	}
+	staleWarnOnly := !hasReturn(staleIf.Body) && len(callsIn(staleIf.Body, "Delete", "DeleteManifest", "DeleteBatch", "Write", "WriteReader")) == 0
 
 	// ---------------------------------------------------------------- runCycleInternal
 	mgf, cyc := fg.FindFunc(files, "Manager", "runCycleInternal")
@@ -443,6 +489,10 @@ func c09(repo string, out *fg.Out) error {
 	fmt.Fprintf(w, "def retryConsultsManifests : Bool := %s\n", b(retryConsults))
 	fmt.Fprintf(w, "def downloadSkipsMissing : Bool := %s\n", b(downloadSkips))
 	fmt.Fprintf(w, "def outputKeepsDedupMetadata : Bool := %s\n", b(keepsMeta))
+	fmt.Fprintf(w, "/-- uploadFile returns an error only when the storage write itself failed -/\n")
+	fmt.Fprintf(w, "def uploadErrorOnlyFromStorageWrite : Bool := %s\n", b(uploadErrOnlyWrite))
+	fmt.Fprintf(w, "/-- the ManifestMaxAge check of recoverManifest only warns (no return, no delete) -/\n")
+	fmt.Fprintf(w, "def staleManifestWarnOnly : Bool := %s\n", b(staleWarnOnly))
 	fmt.Fprintf(w, "def dedupWhenAnyInputTagged : Bool := %s\n", b(anyFile))
 	fmt.Fprintf(w, "/-- readTagColumnsFromParquetFiles returns the union of the arc:tags lists of ALL inputs -/\n")
 	fmt.Fprintf(w, "def dedupKeyIsUnionOfInputTags : Bool := %s\n", b(unionKey))
